@@ -11,19 +11,29 @@ LEVEL_TEXT = ("The Lean model's integers are unbounded, so it has ONE behaviour;
               "one 64-bit word, gathering words (any selector) and unpacking equals gathering the pairs, for all pairs below 2^32 "
               "(C19_index_rows_paths_agree); (b) no overflow: for every shape with size + 1 < 2^31, every value the geometry and the "
               "gather-index builder compute -- starts, ends, the scattered increments, every partial sum of the cumsum -- lies in "
-              "(-2^31, 2^31), so 32-bit arithmetic computes the same integers as the model (C19_no_overflow). The tie to the code: "
-              "the implementation side of the C01-C09 cases is executed under set_dtype(int32) in a separate interpreter and under "
-              "the default int64, and the two result streams are compared with each other and with the oracle (values, row lengths, "
-              "element dtypes, refusals).")
+              "(-2^31, 2^31), so 32-bit arithmetic computes the same integers as the model (C19_no_overflow); (c) the column-slice "
+              "arithmetic of a view (kernels K1-K4, GENERATED from /repo's source on every run) computed in wrapping signed 32-bit "
+              "integers returns exactly the values of the same kernels over unbounded integers, for every row inside a buffer of at most "
+              "2^31 - 1 cells, every slice whose fields are clipped as IndexableArray._bounded_slice clips them, and every Python "
+              "integer column (C19_col_slice_w32, C19_col_slice_int_w32 -- theorems about the generated code itself, re-proved when "
+              "the source changes). The tie to the code: the implementation side of the C01-C09 cases is executed under "
+              "set_dtype(int32) in a separate interpreter and under the default int64, and the two result streams are compared with "
+              "each other and with the oracle (values, row lengths, element dtypes, refusals); view-level cases (props/k19.py) run "
+              "RaggedView2.col_slice on bare int32 / int64 shape arrays with rows of up to 2^31 - 1 cells against the generated "
+              "wrapping kernels, the generated unbounded kernels and CPython's slice arithmetic.")
 LEVEL_NOTE = ("Trusted: Lean kernel (+ standard axioms); little-endian layout of the reinterpreted (start, length) words; numpy's rule "
               "that .view() to a different item size needs a contiguous last axis is not expressible in the list model (the fix of "
               "F19a makes the gathered words contiguous) -- that facet is carried by the correspondence; index dtypes of returned "
               "index arrays (int32 vs int64) are not compared, only their values.")
-TECHNIQUE = "Lean 4 proof of path agreement and absence of 32-bit overflow; two-configuration differential run of the C01-C09 cases"
+TECHNIQUE = ("Lean 4 proof of path agreement and absence of 32-bit overflow (incl. theorems about kernels generated from the source in "
+             "wrapping 32-bit arithmetic); two-configuration differential run of the C01-C09 cases and of view-level column slices")
 DESIGN_REF = "7"
 LEAN_MODULES = ["NpsVerif.Props.C19"]
-KERNELS = ()
-RULE = ("cases = a seeded sample of the quick-tier cases of C01..C09 (all index kinds, assignments, ufuncs, reductions, scans, "
+GEN_PROOFS = ["NpsVerif.Props.C19D"]     # theorems about the generated kernels Gen.CurW / Gen.Cur themselves
+KERNEL_EXTRAS = ("w32",)                  # wrapping 32-bit kernels vs the real methods on int32 shape arrays (kernel_validate)
+KERNELS = ("view2_ends", "calc_lengths", "pos_col_slice", "col_slice_slice", "col_slice_int")
+RULE = ("cases = view-level column-slice cases (rows up to 2^31 - 1 cells x clipped slice fields / integer columns, through "
+        "Lean L/S) plus a seeded sample of the quick-tier cases of C01..C09 (all index kinds, assignments, ufuncs, reductions, scans, "
         "structural functions, column aggregates), each executed under int64 (in process) and int32 (separate interpreter) row "
         "indices; distinct = distinct (property, case); non-trivial = as defined by the originating property")
 EXHAUSTIVE = {"quick": False, "thorough": False}
@@ -31,6 +41,7 @@ CORRESPONDENCE_ONLY = ["numpy's contiguity rule for .view()", "index dtype of re
 ASSUMPTIONS = ["little-endian platform", "arrays are small enough for 32-bit offsets (size + 1 < 2**31)"]
 
 SOURCES = ["C01", "C02", "C03", "C04", "C05", "C07", "C08", "C09"]
+VIEW = "K19"     # props/k19.py: view-level column-slice cases (rows of up to 2**31 - 1 cells, no buffer)
 _mods = {}
 _cases = []
 _int32 = {}
@@ -80,6 +91,7 @@ def cases(rng, tier):
         c = {"t": "int", "i": w(j) if which in ("col", "both", "list") else j}
         out.append({"prop": rng.choice(["C02", "C03"]) if False else "C02",
                     "case": {"lens": lens, "idx": {"r": r, "c": c}, "dtype": "int64", "vseed": rng.randint(0, 999), "variant": rng.randint(0, 29)}})
+    out += [{"prop": VIEW, "case": c} for c in _mod(VIEW).cases(random.Random(rng.randint(0, 10 ** 9)), tier)]
     _cases = out
     return out
 
@@ -159,11 +171,15 @@ def oracle(p):
 
 
 def lean_request(p):
-    return None
+    return _mod(VIEW).lean_request(p["case"]) if p["prop"] == VIEW else None
 
 
 def decode_lean(p, resp):
-    return None, None
+    if p["prop"] != VIEW:
+        return None, None
+    l, s = _mod(VIEW).decode_lean(p["case"], resp)
+    # S: the generated kernels over unbounded integers (one behaviour); L: 64-bit = S, 32-bit = the wrapping kernels
+    return ({"k": "cfg", "prop": VIEW, "int64": s, "int32": l}, {"k": "cfg", "prop": VIEW, "int64": s, "int32": s})
 
 
 def _same(m, a, b):
